@@ -13,7 +13,7 @@ ST = {"ACTIVE": "A", "EXECUTED": "E", "CANCELED": "C"}
 LIM = 2 ** 31 - 1
 
 
-def rat(x, maxden=20000):
+def rat(x, maxden=20000, scale=1):
     """float -> [num, den]: the rational with a small denominator next to x (the float error of a handful of
     operations is 1e-13; two rationals with denominators <= 20000 are >= 2.5e-9 apart).  A value that is not
     close to such a rational is encoded as it is (6 decimals) and will simply not match the specification."""
@@ -22,9 +22,10 @@ def rat(x, maxden=20000):
     x = float(x)
     if x != x or x in (float("inf"), float("-inf")):
         return [-LIM, 1]
-    f = Fraction(x).limit_denominator(maxden)
-    if abs(float(f) - x) > 1e-9 * max(1.0, abs(x)):
-        f = Fraction(int(round(x * 10 ** 6)), 10 ** 6)
+    xs = Fraction(x) * scale               # futures with decimal quantities: money is logged in units of 1/QD
+    f = xs.limit_denominator(maxden)
+    if abs(f - xs) > Fraction(1, 10 ** 9) * max(1, abs(xs)):
+        f = Fraction(int(round(xs * 10 ** 6)), 10 ** 6)
     if abs(f.numerator) > LIM:
         return [LIM if f > 0 else -LIM, 1]
     return [f.numerator, f.denominator]
@@ -46,12 +47,14 @@ def units(x, per_unit, off=None, name=""):
 
 class AcctSession:
     def __init__(self, kind, syms=("A",), fee=(0, 1), lev=1, start=100, price0=None, cancel_on_close=True,
-                 mode="cross"):
+                 mode="cross", qd=1):
         from jesse.exchanges import Sandbox
         self.kind = kind
         self.syms = list(syms)
         self.fee_num, self.fee_den = fee
         self.K = self.fee_den
+        self.QD = qd          # futures: quantities are multiples of 1/QD (the account is homogeneous in the quantity
+        #                       scale, so the integer model sees quantity * QD and money * QD)
         price0 = price0 or {s: 10 for s in syms}
         self.sess = ObjSession(typ=kind, fee=self.fee_num / self.fee_den, lev=lev, mode=mode, balance=float(start),
                                symbols=tuple(SYM[s] for s in syms), price=float(price0[self.syms[0]]),
@@ -67,7 +70,7 @@ class AcctSession:
 
     # ---------------------------------------------------------------- operations
     def _qty(self, q):
-        return q if self.kind == "futures" else q / self.K
+        return q / self.QD if self.kind == "futures" else q / self.K
 
     def apply(self, op, snap=True):
         from jesse import exceptions
@@ -121,10 +124,10 @@ class AcctSession:
 
     # ---------------------------------------------------------------- observation
     def snapshot(self):
-        return snapshot_from_store(self.kind, self.ex, self.syms, self.K, self.orders, self.ordinal)
+        return snapshot_from_store(self.kind, self.ex, self.syms, self.K, self.orders, self.ordinal, self.QD)
 
 
-def snapshot_from_store(kind, ex, syms, K, orders, ordinal):
+def snapshot_from_store(kind, ex, syms, K, orders, ordinal, QD=1):
     """the projected state of a session read from jesse's store (object-level sessions and real backtests alike):
     order records in creation order, registries as ordinals, balances / position / tables as exact encodings"""
     import jesse.helpers as jh
@@ -138,7 +141,7 @@ def snapshot_from_store(kind, ex, syms, K, orders, ordinal):
 
     off = []
     d = {"ord": [{"sym": RSYM.get(o.symbol, o.symbol), "side": o.side, "typ": rtyp.get(o.type, o.type),
-                  "q": units(abs(o.qty), 1 if kind == "futures" else K, off, "order-qty"),
+                  "q": units(abs(o.qty), QD if kind == "futures" else K, off, "order-qty"),
                   "p": units(o.price, 1, off, "order-price"),
                   "ro": bool(o.reduce_only), "st": ST.get(str(o.status).upper(), str(o.status))} for o in orders],
          "pending": ids(st.orders.to_execute)}
@@ -155,17 +158,17 @@ def snapshot_from_store(kind, ex, syms, K, orders, ordinal):
         d["cur"][s] = units(pos[s].current_price, 1, off, "current-price")
     if kind == "futures":
         d["off"] = off
-        d["wallet"] = rat(e.assets[e.settlement_currency])
-        d["margin"] = rat(e.available_margin)
+        d["wallet"] = rat(e.assets[e.settlement_currency], scale=QD)
+        d["margin"] = rat(e.available_margin, scale=QD)
         d["pq"], d["entry"], d["pnl"], d["resB"], d["resS"] = {}, {}, {}, {}, {}
         for s in syms:
             p = pos[s]
             b = jh.base_asset(SYM[s])
-            d["pq"][s] = units(p.qty, 1, off, "position-qty")
+            d["pq"][s] = units(p.qty, QD, off, "position-qty")
             d["entry"][s] = rat(p.entry_price)
-            d["pnl"][s] = rat(p.pnl)
-            d["resB"][s] = [[units(abs(r[0]), 1), units(r[1], 1)] for r in e.buy_orders[b][:].tolist()]
-            d["resS"][s] = [[units(abs(r[0]), 1), units(r[1], 1)] for r in e.sell_orders[b][:].tolist()]
+            d["pnl"][s] = rat(p.pnl, scale=QD)
+            d["resB"][s] = [[units(abs(r[0]), QD), units(r[1], 1)] for r in e.buy_orders[b][:].tolist()]
+            d["resS"][s] = [[units(abs(r[0]), QD), units(r[1], 1)] for r in e.sell_orders[b][:].tolist()]
     else:
         d["quote"] = units(e.assets[e.settlement_currency], K * K, off, "quote")
         d["base"], d["pos"], d["stopSum"], d["limitSum"] = {}, {}, {}, {}
@@ -181,7 +184,7 @@ def snapshot_from_store(kind, ex, syms, K, orders, ordinal):
 
 def _session(kind, hdr):
     return AcctSession(kind, syms=hdr["syms"], fee=(hdr["FeeNum"], hdr["FeeDen"]), lev=hdr.get("Lev", 1),
-                       start=hdr["Start"], price0=hdr["cur0"], cancel_on_close=hdr["CancelOnClose"])
+                       start=hdr["Start"], price0=hdr["cur0"], cancel_on_close=hdr["CancelOnClose"], qd=hdr.get("QD", 1))
 
 
 def run_history(kind, hdr, ops, last_only=False):
@@ -410,6 +413,7 @@ def random_history(kind, hdr, seed, nops, dups=0.0, prices=(6, 7, 8, 9, 10, 11, 
     hdr["judgeinit"] = True
     s = _session(kind, hdr)
     K = s.K
+    QU = s.QD if kind == "futures" else K          # quantity units per 1.0
     init = s.snapshot()
     evs = []
     maxpos = 6
@@ -419,7 +423,7 @@ def random_history(kind, hdr, seed, nops, dups=0.0, prices=(6, 7, 8, 9, 10, 11, 
         for sy in s.syms:
             p = s.sess.pos[SYM[sy]]
             e = Fraction(p.entry_price).limit_denominator(20000) if p.entry_price else Fraction(0)
-            d[sy] = (units(p.qty, 1 if kind == "futures" else K), e)
+            d[sy] = (units(p.qty, QU), e)
         return d
 
     def active(sy=None):
@@ -433,7 +437,7 @@ def random_history(kind, hdr, seed, nops, dups=0.0, prices=(6, 7, 8, 9, 10, 11, 
             if not o.is_active:
                 continue
             sy = RSYM[o.symbol]
-            q1, e1 = _predict_fill(st[sy][0], st[sy][1], o.side, int(abs(o.qty)), int(o.price), bool(o.reduce_only))
+            q1, e1 = _predict_fill(st[sy][0], st[sy][1], o.side, units(abs(o.qty), QU), int(o.price), bool(o.reduce_only))
             if abs(q1) > maxpos or 60 % e1.denominator != 0:
                 return False
             st[sy] = (q1, e1)
@@ -467,7 +471,7 @@ def random_history(kind, hdr, seed, nops, dups=0.0, prices=(6, 7, 8, 9, 10, 11, 
                 q = rng.choice(qtys)
                 ro = pos_q != 0 and ((pos_q > 0) == (side == "sell")) and rng.random() < 0.5
                 if not ro:
-                    resting = sum(int(abs(o.qty)) for o in s.orders if o.is_active and o.symbol == SYM[sy]
+                    resting = sum(units(abs(o.qty), QU) for o in s.orders if o.is_active and o.symbol == SYM[sy]
                                   and not o.reduce_only and o.side == side)
                     signed = pos_q if side == "buy" else -pos_q
                     if max(signed, 0) + resting + q > maxpos and rng.random() > p_reject_probe:
